@@ -351,7 +351,7 @@ def E2() -> bool:
 
 
 def _e1_shards(tier):
-    cfgs = [{"workers": 2, "P": 1, "preserve": 1}] if tier == "quick" else [{"workers": 2, "P": 2, "preserve": 1}, {"workers": 3, "P": 1, "preserve": 0}]
+    cfgs = [{"workers": 2, "P": 1, "preserve": 1}] if tier == "quick" else [{"workers": 2, "P": 1, "preserve": 1}, {"workers": 2, "P": 2, "preserve": 0}, {"workers": 3, "P": 1, "preserve": 0}]
     out = []
     for base in cfgs:
         out += [dict(base, prefix=p) for p in enumerate_prefixes(body_E1, "X", {}, base, base["workers"] * (2 if base["preserve"] else 1))]
@@ -369,7 +369,7 @@ OBLIGATIONS = [
         shards=_e1_shards,
         twin=[{"workers": 2, "P": 1, "preserve": 1, "twin_label": "interleaved"}],
         timeout={"quick": 100, "thorough": 1500},
-        bounds={"quick": "main + 2 worker threads, 3 worker programs each, plain or preserve_context, <= 1 preemption (plus all forced switches) at call granularity", "thorough": "2 workers <= 2 preemptions; 3 plain workers <= 1 preemption"},
+        bounds={"quick": "main + 2 worker threads, 3 worker programs each, plain or preserve_context, <= 1 preemption (plus all forced switches) at call granularity", "thorough": "additionally 2 plain workers with <= 2 preemptions and 3 plain workers with <= 1"},
     ),
     Ob(
         "E2",
